@@ -71,3 +71,17 @@ Check (C07_oversized_parameter_set_refuted : (~ (forall b m0 ops m rs s, build b
        (cfg_codec b = H264 \/ cfg_codec b = H265) ->
        (match cfg_audio b with Some a => at_channels a < 65536 | None => True end) ->
        check_C07 b ops (map class_of rs) (sink_of m) = true))%type).
+Check (C07_finished_file_carries_av1_configuration : (forall b m0 ops m rs s,
+  build b [] = inl m0 -> run m0 ops = (m, rs) -> In (RStats s) rs ->
+  Forall op_payload_ok ops -> len (sink_of m) < 4294967296 ->
+  cfg_codec b = Av1 ->
+  (match cfg_audio b with Some a => at_channels a < 65536 | None => True end) ->
+  check_C07 b ops (map class_of rs) (sink_of m) = true)%type).
+Check (C07_finished_file_carries_vp9_configuration : (forall b m0 ops m rs s,
+  build b [] = inl m0 -> run m0 ops = (m, rs) -> In (RStats s) rs ->
+  Forall op_payload_ok ops -> len (sink_of m) < 4294967296 ->
+  cfg_codec b = Vp9 ->
+  (match cfg_audio b with Some a => at_channels a < 65536 | None => True end) ->
+  check_C07 b ops (map class_of rs) (sink_of m) = true)%type).
+Check (C07_av1_parsed_fields_fit : (forall d c, extract_av1_config d = Some c ->
+  av1_seq_profile c < 8 /\ av1_seq_level_idx c < 32 /\ av1_seq_tier c < 2 /\ av1_chroma_sample_position c < 4)%type).
